@@ -37,12 +37,32 @@ class Chooser:
         return c
 
 
-def enumerate_choices(run, bound=None, max_executions=None):
+def split_prefixes(run, depth):
+    """
+    Prefixes (of length <= depth) that partition the choice tree: every leaf lies below exactly one
+    of them.  Used to shard one large complete enumeration over worker processes.
+    """
+    out = []
+    stack = [[]]
+    while stack:
+        p = stack.pop()
+        trace = run(p)
+        if len(p) >= depth or len(trace) <= len(p):
+            out.append(p)
+            continue
+        n = trace[len(p)][0]
+        for alt in range(n):
+            stack.append(p + [alt])
+    return out
+
+
+def enumerate_choices(run, bound=None, max_executions=None, root=()):
     """
     run(prefix) -> trace   (the caller checks its own result inside run)
-    Yields nothing; returns (executions, max_trace_len, truncated).
+    Returns (executions, max_trace_len, truncated).  With `root`, only the subtree below that
+    prefix is enumerated (choices inside the root prefix are never varied).
     """
-    stack = [[]]
+    stack = [list(root)]
     n_exec = 0
     max_len = 0
     while stack:
@@ -54,7 +74,7 @@ def enumerate_choices(run, bound=None, max_executions=None):
             raise HarnessError("replay divergence: the prefix was not followed")
         if max_executions is not None and n_exec >= max_executions:
             return n_exec, max_len, True
-        dev = sum(1 for _, c in trace[:len(prefix)] if c)
+        dev = sum(1 for _, c in trace[len(root):len(prefix)] if c)
         for i in range(len(trace) - 1, len(prefix) - 1, -1):
             n, _ = trace[i]
             if bound is not None and dev + 1 > bound:
